@@ -614,11 +614,11 @@ pub fn run(ctx: &Ctx) -> i32 {
     });
     // ------------- C05 extras: determinism under all hash orders; larger shapes for the no-panic clause
     let mut extra = serde_json::Map::new();
+    // larger shapes (5..10 edges, 12 in the thorough tier) for every property of this engine: beyond 8 edges
+    acc.merge(big_shapes_pass(tier, judge));
     if judge.c05 {
         let det = determinism_pass(tier);
         acc.merge(det);
-        let big = big_shapes_pass(tier);
-        acc.merge(big);
         acc.merge(build_history_pass());
         extra.insert("hash_order_probe".into(), json!(probe_hash_order_control()));
     }
@@ -816,8 +816,8 @@ fn build_history_pass() -> Acc {
     })
 }
 
-fn big_shapes_pass(tier: Tier) -> Acc {
-    let max_e = tier.pick(8, 10);
+fn big_shapes_pass(tier: Tier, judge: Judge) -> Acc {
+    let max_e = tier.pick(10, 12);
     let mut shapes: Vec<Vec<(u8, u8)>> = vec![];
     for ne in 5..=max_e {
         // cycle, path, star, complete-multigraph walk, banana, flower, two disjoint cycles
@@ -847,15 +847,24 @@ fn big_shapes_pass(tier: Tier) -> Acc {
     par_for(shapes.len(), |i, acc| {
         let shape = &shapes[i];
         let ne = shape.len();
-        for (massive, ext, d, w) in [
-            (vec![true; ne], vec![], 4usize, 4.0f64),
-            (vec![false; ne], vec![shape[0].0, shape[ne - 1].1], 3, 2.0 / 3.0),
-            ((0..ne).map(|e| e % 2 == 0).collect(), vec![shape[0].0], 6, 1.0),
+        for (massive, ext, d, w, graded) in [
+            (vec![true; ne], vec![], 4usize, 4.0f64, false),
+            (vec![false; ne], vec![shape[0].0, shape[ne - 1].1], 3, 2.0 / 3.0, false),
+            ((0..ne).map(|e| e % 2 == 0).collect(), vec![shape[0].0], 6, 1.0, false),
+            // odd D*L and pairwise different weights (every table row different)
+            (vec![true; ne], vec![shape[0].0, shape[ne - 1].1], 3, 1.5, true),
+            ((0..ne).map(|e| e % 3 == 1).collect::<Vec<bool>>(), vec![shape[0].0, shape[ne / 2].0], 5, 2.5, true),
+            (vec![true; ne], vec![], 1, 1.0, true),
         ] {
-            let g = mk(shape, &massive, &vec![w; ne], &ext, d);
+            let weights: Vec<f64> = (0..ne).map(|e| if graded { w + e as f64 / 32.0 } else { w }).collect();
+            let g = mk(shape, &massive, &weights, &ext, d);
             let pre = precompute(&g);
             acc.inc("big_shape_builds");
-            check_config(&g, &pre, Judge { c03: false, c04: false, c05: true }, acc, 0);
+            acc.inc("configurations");
+            let ok = check_config(&g, &pre, judge, acc, 0);
+            if ok {
+                acc.inc("big_shapes_accepted");
+            }
         }
     })
 }
